@@ -248,7 +248,7 @@ Proof.
   - (* OTrim *)
     cbn [step sstep] in *. pose proof (F2_nth _ _ _ j HO) as Hj.
     destruct (nth_error (st_objs st) j) as [ob|], (nth_error (sp_objs sp) j) as [so|]; try contradiction; [|cbn; auto].
-    pose proof Hj as ([Hl Hv] & Hm & Hn & Hca). rewrite Hv, Hm in *.
+    pose proof Hj as ([Hl Hv] & Hm & Hn & Hca). rewrite Hv, Hm, Hn in *.
     apply derive_R; auto; [|discriminate].
     unfold derive, halloc in Hok. cbn in Hok. now apply negb_true_iff in Hok.
   - (* ORead *)
